@@ -28,7 +28,7 @@ def cases(seed, tier):
     for i in range(n):
         pat = rng.choice(["wl/*", "wl/a*", "wl/a?", "wl/svc*", "wl/*/x", "wl/a", "*/a1", "wl/[ab]*"])
         use_x = rng.random() < 0.4
-        rs = c02.gen_ruleset(rng, "rc", delays=("0", "1", "2", None))
+        rs = c02.gen_ruleset(rng, "rc", delays=("0", "1", "2", None), act_delay=rng.random() < 0.5)
         rs["cgroup"] = pat
         if use_x:
             rs["xattr_filter"] = XA
